@@ -424,3 +424,36 @@ def check(model, rep):
     helpers = [f for f in model.funcs_in('basic_robotics.general.basic_helpers') if f.name in ('TAAtoTM', 'TMtoTAA', 'localToGlobal', 'globalToLocal')]
     n = closure_obligations(model, rep, 'R03.4', list(ck.tm.methods.values()) + helpers, 'class tm (TAAtoTM / TMtoTAA / inv / adjoint / frame conversion)')
     rep.floor('R03.4', 'shared primitives under class tm', len(n), 8)
+    r035(model, rep, ck.tm)
+
+
+def r035(model, rep, tm):
+    """Payload ownership: two tm objects never share a representation array.  With in-place writers in the class (setQuat writes
+    self.TM[0:3,0:3], __setitem__ writes self.TAA[i]) a shared array means an operation on one object silently changes ONE of
+    the two representations of the other - which then disagrees with its own second representation."""
+    from ..engine.effects import Effects
+    rep.rule('R03.5', 'no method of tm stores the representation array of ANOTHER transform object as its own TM / TAA (copy on construction)')
+    fx = Effects(model)
+    inplace = sorted(name for name, fi in tm.methods.items() for n in walk_own(fi.node)
+                     if isinstance(n, (ast.Assign, ast.AugAssign)) for t in (n.targets if isinstance(n, ast.Assign) else [n.target])
+                     if isinstance(t, ast.Subscript) and isinstance(t.value, ast.Attribute) and t.value.attr in ('TM', 'TAA')
+                     and isinstance(t.value.value, ast.Name) and t.value.value.id == 'self')
+    n_store = 0
+    for name, fi in sorted(tm.methods.items()):
+        s_ = fx.summary(fi)
+        # parameters the method itself treats as transform objects (reads .TM / .TAA of them)
+        tm_params = {n.value.id for n in walk_own(fi.node) if isinstance(n, ast.Attribute) and n.attr in ('TM', 'TAA') and isinstance(n.value, ast.Name)
+                     and n.value.id in fi.params and n.value.id != 'self'}
+        for fld in ('TM', 'TAA'):
+            stores = [n for n in walk_own(fi.node) if isinstance(n, ast.Assign) and any(
+                isinstance(t, ast.Attribute) and t.attr == fld and isinstance(t.value, ast.Name) and t.value.id == 'self' for t in n.targets)]
+            if not stores:
+                continue
+            n_store += 1
+            shared = sorted(p for (p, kind) in s_.stores.get(fld, ()) if p in tm_params and kind == 'pay')
+            rep.ob('R03.5', fi, 'self.%s owns its storage' % fld, not shared,
+                   'self.%s may be the very array held by the transform passed as `%s`: a later in-place write through either object (%s) changes '
+                   'one representation of the other object, whose second representation is then stale'
+                   % (fld, shared[0] if shared else '?', ', '.join(sorted(set(inplace))) or 'in-place writers'), line=stores[0].lineno)
+    rep.count('methods of tm storing a whole representation', n_store)
+    rep.floor('R03.5', 'whole-representation stores', n_store, 4)
